@@ -304,22 +304,21 @@ class C16(Check):
             text = s.selectorText
             nsd = dict(s._namespaces.namespaces)
             got2, s2 = im.sel(im.tokenize(text), nsd)
-            kf = KF_SPACE if trailing_space_after_descendant(s.seq) else None
             if not names_serialisable(s.seq):
                 # a name holding a character that only a hex escape can produce (`\\2a` is the IDENT `*`): the
                 # tokenizer resolves hex escapes and the serializer does not write them back — property C03, not C16
                 ctx.count('outside-C16:name-needs-hex-escape')
                 return
             if not got2.startswith('OK'):
-                ctx.violate('the serialised selector reparses', dict(w, serialised=text), got2, known=kf)
+                ctx.violate('the serialised selector reparses', dict(w, serialised=text), got2)
             else:
                 p1, p2 = g.project_seq(s.seq, im.css.CSSComment), g.project_seq(s2.seq, im.css.CSSComment)
                 if p1 != p2 or s2.specificity != sp:
                     ctx.violate('the serialised selector reparses to the same sequence of simple selectors and '
                                 'combinators with the same specificity', dict(w, serialised=text),
-                                {'before': [p1, sp], 'after': [p2, s2.specificity]}, known=kf)
+                                {'before': [p1, sp], 'after': [p2, s2.specificity]})
                 if s2.selectorText != text:
-                    ctx.violate('serialisation is a fixpoint', dict(w, serialised=text), s2.selectorText, known=kf)
+                    ctx.violate('serialisation is a fixpoint', dict(w, serialised=text), s2.selectorText)
 
     # -- grammar stream ---------------------------------------------------------------------------
     def grammar_stream(self, ctx, im):
@@ -712,15 +711,7 @@ class C16(Check):
 
     # ------------------------------------------------------------------------------------------
     def known(self, ctx, finding):
-        """replay the witness of a known finding on the implementation: does it still fail?"""
-        im = Impl()
-        if finding['id'] == KF_SPACE:
-            text = finding['witness']['data']['text']
-            got, s = im.sel(im.tokenize(text), {})
-            if not got.startswith('OK'):
-                return False
-            got2, s2 = im.sel(im.tokenize(s.selectorText), {})
-            return not got2.startswith('OK') or s2.specificity != s.specificity
+        """no finding with status "known" is listed at present (known/C16.json holds fixed ones only)"""
         return True
 
     def replay(self, ctx, data):
@@ -772,21 +763,6 @@ _NMST = r'(?:[A-Za-z_\u0080-\U0010ffff]|\\[^\n\r\f0-9a-fA-F])'
 _IDENT = _re.compile(r'^-?%s%s*$' % (_NMST, _NMCH))
 _PLAIN_NAME = _re.compile(r'^:{1,2}-?%s%s*\(?$' % (_NMST, _NMCH))
 _NAME = _re.compile(r'^%s+$' % _NMCH)
-
-
-KF_SPACE = 'C16-escaped-space-eats-descendant'
-
-
-def trailing_space_after_descendant(seq):
-    """region of the known finding: a name ending with an (escaped) space directly after a descendant combinator"""
-    items = list(seq)
-    for i in range(1, len(items)):
-        v = items[i].value
-        name = v[1] if isinstance(v, tuple) else v
-        if items[i - 1].type == 'descendant' and isinstance(name, str) and items[i].type not in ('S', 'descendant') \
-                and name.endswith(' '):
-            return True
-    return False
 
 
 def names_serialisable(seq):
